@@ -74,7 +74,25 @@ def describe(o):
 def probe(R, pid, name, da, op, mutations, case=None, first_op=None):
     """``mutations``: list of (label, fn) where fn(da) changes the SAME object in place.  ``first_op``: the operation that
     uses the object first (default: the probed one) - one feature must not poison the object for another."""
-    outcome(first_op or op, da)  # first use: whatever the accessor wants to remember, it remembers now
+    # an operation reads its input: the caller's data must be bit-identical afterwards, and memory the caller may not
+    # write to (np.load(mmap_mode="r"), broadcast views, frombuffer) must be as good as any other
+    vals = da.values
+    before = vals.tobytes()
+    readonly = bool(case and case.get("readonly")) and vals.flags.writeable
+    if readonly:
+        vals.setflags(write=False)
+        R.count("reuse_first_use_on_read_only_memory")
+    first = outcome(first_op or op, da)  # first use: whatever the accessor wants to remember, it remembers now
+    if readonly:
+        vals.setflags(write=True)
+        ref = outcome(first_op or op, fresh(da))
+        if not same(first, ref):
+            R.violation(f"{pid}:read-only-input", f"{name}: on read-only memory the first operation {describe(first)}, on a writable copy {describe(ref)}", dict(case or {}, op=name))
+            return False
+    R.count("reuse_input_unmodified_checks")
+    if da.values.tobytes() != before:
+        R.violation(f"{pid}:input-mutated", f"{name}: the first operation changed the values of the DataArray it was called on ({int(np.sum(np.frombuffer(before, dtype=vals.dtype) != vals.ravel()))} cells)", dict(case or {}, op=name))
+        return False
     for label, mut in [("nothing (second use of the same object)", lambda d: None)] + list(mutations):
         mut(da)
         want = outcome(op, fresh(da))
@@ -122,7 +140,7 @@ def relabel_time(rng):
     return mut
 
 
-PIDS = ("C02", "C03", "C04", "C05", "C07", "C08", "C09", "C10", "C15", "C16", "C17", "C18", "C19", "C20")
+PIDS = ("C02", "C03", "C04", "C05", "C07", "C08", "C09", "C10", "C11", "C15", "C16", "C17", "C18", "C19", "C20")
 
 
 # ---- per-property operation tables (small cubes; the point is the object's life cycle, not the numerics) -------------
@@ -193,6 +211,8 @@ def shard(spec, R, pid):
     from . import harness as H
 
     rng = np.random.default_rng([spec["seed"], 77, int(pid[1:]), spec.get("sub", 0)])
+    if pid == "C11":
+        return shard_c11(spec, R, rng)
     for it in range(spec["cases"]):
         if R.out_of_time():
             R.count("stopped_on_budget")
@@ -216,10 +236,43 @@ def shard(spec, R, pid):
             if "nodata" not in da.attrs:
                 muts.append(("the nodata attribute added", set_attr("nodata", -9999)))
             muts.append(("missing cells re-encoded and the nodata attribute changed", recode_nodata(-1 if np.dtype(dtype).kind != "u" else 255)))
-        if pid in ("C18", "C19", "C09", "C11", "C07"):
+        if pid in ("C18", "C19", "C09", "C07"):
             muts.append(("the time coordinate re-assigned in another order", relabel_time(rng)))
+        if np.dtype(dtype).kind == "f" and pid in ("C15", "C16", "C19"):
+            muts.insert(0, ("NaN written into cells in place", flag_cells(rng, np.nan, share=0.15)))
         R.evaluation()
         R.case(True, "reuse", pid, name, dtype, order, it)
         first = list(ops)[H.pick(it, 5, len(ops))]
         R.count("reuse_first_use_by_another_operation" if first != name else "reuse_first_use_by_the_same_operation")
-        probe(R, pid, f"{name} after {first} ({dtype}, dims {order})", da, ops[name], muts, first_op=ops[first], case={"cube": np.asarray(da.values), "dims": list(order), "dtype": dtype, "attrs": {k: float(v) for k, v in da.attrs.items()}})
+        probe(R, pid, f"{name} after {first} ({dtype}, dims {order})", da, ops[name], muts, first_op=ops[first],
+              case={"cube": np.array(da.values, copy=True), "dims": list(order), "dtype": dtype, "attrs": {k: float(v) for k, v in da.attrs.items()}, "readonly": bool(H.pick(it, 6, 2))})
+
+
+def shard_c11(spec, R, rng):
+    """The .dekad accessor lives on a time DataArray; the object is the coordinate variable itself."""
+    import pandas as pd
+    import xarray as xr
+    import hdc.algo  # noqa: F401
+
+    from . import harness as H
+
+    props = ["idx", "yidx", "ndays", "raw", "label", "start_date", "end_date", "year", "month"]
+    for it in range(spec["cases"]):
+        if R.out_of_time():
+            break
+        n = int(rng.choice([3, 6, 12, 40]))
+        t0 = pd.Timestamp("2000-01-01") + pd.Timedelta(days=int(rng.integers(0, 9000)))
+        times = pd.DatetimeIndex(t0 + pd.to_timedelta(np.cumsum(rng.integers(1, 15, n)), unit="D"))
+        t = xr.DataArray(times, dims=["time"], coords={"time": times}, name="time")
+        name = props[H.pick(it, 1, len(props))]
+        first = props[H.pick(it, 2, len(props))]
+        op = lambda d, nm=name: np.asarray(getattr(d.dekad, nm).values)
+        fop = lambda d, nm=first: np.asarray(getattr(d.dekad, nm).values)
+
+        def shift(d):
+            new = pd.DatetimeIndex(d["time"].values) + pd.Timedelta(days=int(rng.integers(3, 40)))
+            d["time"] = new
+
+        R.evaluation()
+        R.case(True, "reuse", "C11", name, it)
+        probe(R, "C11", f".dekad.{name} after .dekad.{first}", t, op, [("the time coordinate shifted in place", shift)], first_op=fop, case={"times": [str(v) for v in times]})
